@@ -48,6 +48,7 @@ type State struct {
 	preHeap      map[string]string // heap at the most recent loop cut
 	facts        []strFact         // string decomposition facts valid on this path
 	known        map[string]string // known slice elements: region|id|index -> term
+	strictHavoc  bool              // rehavoc must not keep a value it cannot replace (loop cuts)
 	quantDepth   int               // >0 while evaluating under a quantifier (no path assumptions may be added)
 	atomicAcq    int               // acquisitions of the operation's own mutex on this path
 	published    map[string]bool   // freshly allocated objects that have been stored into shared structures
